@@ -137,7 +137,11 @@ let build_fixture r : fx =
       @ [ DFixed (le32 0xffffffff); (if pw = "" then DNull else vl (bs pw)); DNull ]) roles in
   let authid = enc_heap authid_cols idds (one_page r (List.map (live_item r) auth_rows)) in
   let x1 = 700 + rint r 50 in
-  let wal = wal_segment r (shuffle r [ (x1 + 3, 10, 0x00); (x1 + 1, 10, 0x00); (x1 + 2, 10, 0x20); (x1, 10, 0x00) ]
+  (* besides four neighbouring xids, every second fixture has three transactions a third of the 32-bit xid space apart
+     (a "precedes" b "precedes" c "precedes" a under wraparound arithmetic: an ordering by circular comparison is not a total
+     order there and leaves the result to Go's map iteration; seeded change C11-7) *)
+  let far = if rbool r then [ (0x10000000 + rint r 1000, 10, 0x00); (0x60000000 + rint r 1000, 10, 0x00); (0xB0000000 + rint r 1000, 10, 0x00) ] else [] in
+  let wal = wal_segment r (shuffle r ([ (x1 + 3, 10, 0x00); (x1 + 1, 10, 0x00); (x1 + 2, 10, 0x20); (x1, 10, 0x00) ] @ far)
                            @ [ (x1 + 1, 1, 0x00); (x1 + 3, 1, 0x20); (x1, 1, 0x00) ]) in
   let control = le64 0x1122334455667788 @ le32 1300 @ le32 202307071 @ le32 6 @ zeros 4 @ rbytes r 200 @ zeros (8192 - 228) in
   let dbl = List.rev !dbxs in
